@@ -11,46 +11,71 @@ From SQ Require Import lib.Base.
 Local Open Scope N_scope.
 
 Record rx := mkRx {
-  rw : N; sent : N; cons : N; ended : N; rst : N; waiter : option N; wakes : N }.
+  rw : N; sent : N; cons : N; ended : N; rst : N; waiter : option N; wakes : N;
+  ooo : option (N * N);     (* one segment received beyond a gap: [start, end) *)
+  final : N }.              (* the final size, meaningful when ended = 1 *)
 
 Inductive rop :=
-| RData (n : N) (fin : bool)     (* STREAM frame with the next n bytes (clipped to the window room) *)
+| RData (n : N) (fin : bool)     (* STREAM frame with the next n bytes at the contiguous end (clipped to the
+                                    window room, or to the gap when a later segment is held); fills the gap *)
 | RRead (l h : N)                (* rx request: low watermark l, high watermark max(h,1), with a waker *)
-| RReset.                        (* RESET_STREAM with the right final size *)
+| RReset                         (* RESET_STREAM with the right final size *)
+| ROoo (g n : N) (fin : bool).   (* STREAM frame of n bytes at offset contiguous end + g (g >= 1), maybe FIN *)
 
-Definition rx_init (w : N) : rx := mkRx w 0 0 0 0 None 0.
+Definition rx_init (w : N) : rx := mkRx w 0 0 0 0 None 0 None 0.
 Definition blen (s : rx) : N := sent s - cons s.
 (* ReceiveStreamFlowController::watermark: half the desired window *)
 Definition fc_watermark (s : rx) : N := rw s / 2.
+(* receive_buffer.is_writing_complete(): final size known and everything up to it received *)
+Definition complete (s : rx) : bool := (ended s =? 1) && (sent s =? final s).
 
 (* ReceiveStream::wake: hand the stored waker to the events (it is woken by the caller) *)
 Definition wake (s : rx) : rx :=
   match waiter s with
-  | Some _ => mkRx (rw s) (sent s) (cons s) (ended s) (rst s) None (wakes s + 1)
+  | Some _ => mkRx (rw s) (sent s) (cons s) (ended s) (rst s) None (wakes s + 1) (ooo s) (final s)
   | None => s
   end.
 
 Definition room (s : rx) : N := cons s + rw s - sent s.
 
+(* on_data: wake if the buffer has data and crossed min(application watermark, flow watermark) *)
+Definition crossed (s : rx) : bool :=
+  match waiter s with
+  | Some l => (1 <=? blen s) && (N.min l (fc_watermark s) <=? blen s)
+  | None => false
+  end.
+
 Definition rx_data (s : rx) (n : N) (fin : bool) : rx :=
-  let n' := N.min n (room s) in
-  if (ended s =? 0) && ((0 <? n') || fin) then
-    let sent' := sent s + n' in
-    let len := sent' - cons s in
-    (* on_data: wake if the buffer has data and crossed min(application watermark, flow watermark) *)
-    let crossed := match waiter s with
-                   | Some l => (1 <=? len) && (N.min l (fc_watermark s) <=? len)
-                   | None => false
-                   end in
-    (* ... or if the stream is complete (FIN known and everything received) *)
-    let should_wake := crossed || fin in
-    let rst' := if fin && (cons s =? sent') then 1 else rst s in
-    let s1 := mkRx (rw s) sent' (cons s) (if fin then 1 else 0) rst' (waiter s) (wakes s) in
-    if should_wake then wake s1 else s1
+  let n' := match ooo s with Some (a, _) => N.min n (a - sent s) | None => N.min n (room s) end in
+  let fin' := match ooo s with Some _ => false | None => fin end in
+  let allowed := (ended s =? 0) || ((ended s =? 1) && match ooo s with Some _ => true | None => false end) in
+  if allowed && ((0 <? n') || fin') then
+    let sent1 := sent s + n' in
+    let merged := match ooo s with Some (a, _) => sent1 =? a | None => false end in
+    let sent' := match ooo s with Some (a, b) => if sent1 =? a then b else sent1 | None => sent1 end in
+    let ooo' := if merged then None else ooo s in
+    let final' := if fin' then sent' else final s in
+    let ended' := if fin' then 1 else ended s in
+    let rst' := if fin' && (cons s =? sent') then 1 else rst s in
+    let s1 := mkRx (rw s) sent' (cons s) ended' rst' (waiter s) (wakes s) ooo' final' in
+    (* ... or if the stream is now completely received, whichever frame completed it *)
+    if crossed s1 || complete s1 then wake s1 else s1
+  else s.
+
+Definition rx_ooo (s : rx) (g n : N) (fin : bool) : rx :=
+  let start := sent s + g in
+  let n' := N.min n (cons s + rw s - start) in
+  if (ended s =? 0) && (match ooo s with None => true | Some _ => false end)
+     && (1 <=? g) && (start <=? cons s + rw s) && ((0 <? n') || fin) then
+    let s1 := mkRx (rw s) (sent s) (cons s) (if fin then 1 else 0) (rst s) (waiter s) (wakes s)
+                   (Some (start, start + n')) (if fin then start + n' else final s) in
+    if crossed s1 || complete s1 then wake s1 else s1
   else s.
 
 Definition rx_reset (s : rx) : rx :=
-  if ended s =? 0 then wake (mkRx (rw s) (sent s) (cons s) 2 2 (waiter s) (wakes s)) else s.
+  if ended s =? 0
+  then wake (mkRx (rw s) (sent s) (cons s) 2 2 (waiter s) (wakes s) (ooo s) (final s))
+  else s.
 
 (* poll_request; returns the state, [consumed; will_wake; status; available] and whether the case ends
    (status 2 Finished / 9 error) *)
@@ -58,9 +83,9 @@ Definition rx_read (s : rx) (l h : N) : rx * (N * bool * N * N) * bool :=
   let high := N.max h 1 in
   let low := N.min l high in
   if rst s =? 2 then
-    (mkRx (rw s) (sent s) (cons s) (ended s) (rst s) None (wakes s), (0, false, 9, 0), true)
+    (mkRx (rw s) (sent s) (cons s) (ended s) (rst s) None (wakes s) (ooo s) (final s), (0, false, 9, 0), true)
   else if rst s =? 1 then
-    (mkRx (rw s) (sent s) (cons s) (ended s) (rst s) None (wakes s), (0, false, 2, 0), true)
+    (mkRx (rw s) (sent s) (cons s) (ended s) (rst s) None (wakes s) (ooo s) (final s), (0, false, 2, 0), true)
   else
     let len := blen s in
     let ok := N.min (fc_watermark s) low <=? len in
@@ -68,21 +93,23 @@ Definition rx_read (s : rx) (l h : N) : rx * (N * bool * N * N) * bool :=
     let park := negb ok || (take =? 0) in
     let low' := low - take in
     let cons' := cons s + take in
-    let done := (ended s =? 1) && (cons' =? sent s) in
-    let status := if done then 2 else if ended s =? 1 then 1 else 0 in
+    let done := (ended s =? 1) && (cons' =? final s) in
+    let status := if done then 2 else if complete s then 1 else 0 in
     let waiter1 := if done then None else waiter s in
     let waiter2 := if park then Some low' else waiter1 in
-    (mkRx (rw s) (sent s) cons' (ended s) (if done then 1 else rst s) waiter2 (wakes s),
+    (mkRx (rw s) (sent s) cons' (ended s) (if done then 1 else rst s) waiter2 (wakes s) (ooo s) (final s),
      (take, park, status, sent s - cons'), done).
 
 Definition rx_step (s : rx) (o : rop) : rx :=
   match o with
   | RData n fin => rx_data s n fin
+  | ROoo g n fin => rx_ooo s g n fin
   | RReset => rx_reset s
   | RRead l h => fst (fst (rx_read s l h))
   end.
 
-(* ---- harness protocol: case = [w; ops..]; ops (code mod 4): 0 n | 1 l h | 2 n (FIN) | 3 (reset);
+(* ---- harness protocol: case = [w; ops..]; ops (code mod 6): 0 n | 1 l h | 2 n (FIN) | 3 (reset)
+   | 4 g n (later segment) | 5 g n (later segment with FIN);
    output per op [consumed; will_wake; status; wake() calls so far; available (reads only)] *)
 Definition argN (cap : N) (z : Z) : N := N.min (zN z) cap.
 Definition arg (cap : N) (i : nat) (l : list Z) : N := argN cap (nth i l 0%Z).
@@ -94,11 +121,13 @@ Fixpoint parse (fuel : nat) (l : list Z) : list rop :=
   match l with
   | [] => []
   | c :: t =>
-      match (c mod 4)%Z with
+      match (c mod 6)%Z with
       | 0%Z => RData (arg amax 0 t) false :: parse fuel (skipn 1 t)
       | 1%Z => RRead (arg amax 0 t) (arg amax 1 t) :: parse fuel (skipn 2 t)
       | 2%Z => RData (arg amax 0 t) true :: parse fuel (skipn 1 t)
-      | _ => RReset :: parse fuel t
+      | 3%Z => RReset :: parse fuel t
+      | 4%Z => ROoo (arg amax 0 t) (arg amax 1 t) false :: parse fuel (skipn 2 t)
+      | _ => ROoo (arg amax 0 t) (arg amax 1 t) true :: parse fuel (skipn 2 t)
       end
   end end.
 
@@ -118,16 +147,21 @@ Definition ops_of (l : list Z) : list rop := parse (length l) (skipn 1 l).
 Definition run (l : list Z) : list Z := run_ops (rx_init (w_of l)) (ops_of l).
 
 (* ---- the property as an executable judgement on an implementation's output.
-   Recomputed from the operations and the implementation's reported consumption: what the peer sent,
-   what the application consumed, whether FIN / reset arrived; a reader counts as parked from a
-   request that answered will_wake until the wake counter moves.  Demand: a parked reader has been
-   woken as soon as the buffer holds its (remaining) low watermark (at least one byte), or the
-   flow-control window can admit nothing more until it reads, or FIN / reset arrived; and a request
-   is not parked in such a state. *)
-Record rj := mkRj { jw : N; jsent : N; jcons : N; jended : N; jpark : option N; jlast : Z }.
+   Recomputed from the operations and the implementation's reported consumption: the contiguous
+   prefix the peer has delivered, the one segment held beyond a gap, the final size once a FIN was
+   seen, what the application consumed; a reader counts as parked from a request that answered
+   will_wake until the wake counter moves.  Demand: a parked reader has been woken as soon as the
+   buffer holds its (remaining) low watermark (at least one byte), or the stream is completely
+   received (whichever frame completed it) or reset, or -- with no gap outstanding -- the
+   flow-control window can admit nothing more until it reads; and a request is not parked in such a
+   state. *)
+Record rj := mkRj { jw : N; jsent : N; jcons : N; jended : N; jpark : option N; jlast : Z;
+                    jooo : option (N * N); jfinal : N }.
 
 Definition must_wake (j : rj) (l : N) : bool :=
-  negb (jended j =? 0) || (N.max 1 l <=? jsent j - jcons j) || (jsent j =? jcons j + jw j).
+  (jended j =? 2) || ((jended j =? 1) && (jsent j =? jfinal j))
+  || (N.max 1 l <=? jsent j - jcons j)
+  || (match jooo j with None => jsent j =? jcons j + jw j | Some _ => false end).
 
 Definition park_ok (j : rj) : bool :=
   match jpark j with Some l => negb (must_wake j l) | None => true end.
@@ -135,23 +169,40 @@ Definition park_ok (j : rj) : bool :=
 Definition jstep (j : rj) (o : rop) (c ww st wk av : Z) : option (rj * bool) :=
   let woken := (jlast j <? wk)%Z in
   let park0 := if woken then None else jpark j in
+  let frame_ok := (c =? 0)%Z && (ww =? 0)%Z && (jlast j <=? wk)%Z in
   match o with
   | RData n fin =>
-      let n' := N.min n (jcons j + jw j - jsent j) in
-      let eff := (jended j =? 0) && ((0 <? n') || fin) in
-      let j' := if eff then mkRj (jw j) (jsent j + n') (jcons j) (if fin then 1 else 0) park0 wk
-                else mkRj (jw j) (jsent j) (jcons j) (jended j) park0 wk in
-      if (c =? 0)%Z && (ww =? 0)%Z && (jlast j <=? wk)%Z && park_ok j' then Some (j', false) else None
+      let n' := match jooo j with Some (a, _) => N.min n (a - jsent j) | None => N.min n (jcons j + jw j - jsent j) end in
+      let fin' := match jooo j with Some _ => false | None => fin end in
+      let allowed := (jended j =? 0) || ((jended j =? 1) && match jooo j with Some _ => true | None => false end) in
+      let j' :=
+        if allowed && ((0 <? n') || fin') then
+          let sent1 := jsent j + n' in
+          let sent' := match jooo j with Some (a, b) => if sent1 =? a then b else sent1 | None => sent1 end in
+          let ooo' := match jooo j with Some (a, _) => if sent1 =? a then None else jooo j | None => None end in
+          mkRj (jw j) sent' (jcons j) (if fin' then 1 else jended j) park0 wk ooo' (if fin' then sent' else jfinal j)
+        else mkRj (jw j) (jsent j) (jcons j) (jended j) park0 wk (jooo j) (jfinal j) in
+      if frame_ok && park_ok j' then Some (j', false) else None
+  | ROoo g n fin =>
+      let start := jsent j + g in
+      let n' := N.min n (jcons j + jw j - start) in
+      let j' :=
+        if (jended j =? 0) && (match jooo j with None => true | Some _ => false end)
+           && (1 <=? g) && (start <=? jcons j + jw j) && ((0 <? n') || fin)
+        then mkRj (jw j) (jsent j) (jcons j) (if fin then 1 else 0) park0 wk (Some (start, start + n'))
+                  (if fin then start + n' else jfinal j)
+        else mkRj (jw j) (jsent j) (jcons j) (jended j) park0 wk (jooo j) (jfinal j) in
+      if frame_ok && park_ok j' then Some (j', false) else None
   | RReset =>
-      let j' := mkRj (jw j) (jsent j) (jcons j) (if jended j =? 0 then 2 else jended j) park0 wk in
-      if (c =? 0)%Z && (ww =? 0)%Z && (jlast j <=? wk)%Z && park_ok j' then Some (j', false) else None
+      let j' := mkRj (jw j) (jsent j) (jcons j) (if jended j =? 0 then 2 else jended j) park0 wk (jooo j) (jfinal j) in
+      if frame_ok && park_ok j' then Some (j', false) else None
   | RRead l h =>
       let high := N.max h 1 in
       let low := N.min l high in
       let cn := zN c in
       let plausible := (0 <=? c)%Z && (cn <=? high) && (cn <=? jsent j - jcons j) in
       let j' := mkRj (jw j) (jsent j) (jcons j + cn) (jended j)
-                     (if (ww =? 1)%Z then Some (low - cn) else None) wk in
+                     (if (ww =? 1)%Z then Some (low - cn) else None) wk (jooo j) (jfinal j) in
       if plausible && ((ww =? 0) || (ww =? 1))%Z && (jlast j <=? wk)%Z && park_ok j'
       then Some (j', (st =? 2)%Z || (st =? 9)%Z) else None
   end.
@@ -168,4 +219,4 @@ Fixpoint judge_ops (j : rj) (ops : list rop) (out : list Z) : bool :=
   end.
 
 Definition judge (l out : list Z) : bool :=
-  judge_ops (mkRj (w_of l) 0 0 0 None 0%Z) (ops_of l) out.
+  judge_ops (mkRj (w_of l) 0 0 0 None 0%Z None 0) (ops_of l) out.
